@@ -182,12 +182,24 @@ def nullable_vars(cfg: CFG) -> Set[str]:
             scan_test(n.meta['test'])
         elif n.kind == 'store_name' and n.meta.get('value') is not None:
             scan_test(n.meta['value'])
+    out |= set(cfg.__dict__.get('extra_tracked', ()))
     for n in cfg.nodes:
         if n.kind == 'del_name':
             out.discard(n.meta['name'])
     out -= _written_by_nested(cfg)
     cfg.__dict__['_nullable_vars'] = out
     return out
+
+
+def track_names(cfg: CFG, names) -> None:
+    """Ask for *names* to be followed along paths by definition site as well (so that `leaves(..., env=)` can tell
+    which of several definitions a path went through: `found, value = probe()` ... `if found: return value`)."""
+    cur = cfg.__dict__.setdefault('extra_tracked', set())
+    new = set(names) - cur
+    if new:
+        cur |= new
+        for k in ('_nullable_vars', '_atom_sites'):
+            cfg.__dict__.pop(k, None)
 
 
 def _tracked(cfg: CFG) -> Tuple[Set[str], Set[str]]:
